@@ -409,6 +409,11 @@ impl<'buf> ModuleReader<'buf> {
 
         // Take at most one page of the text section (we assume page size is 4096 bytes).
         let len = std::cmp::min(4096, text_header.sh_size);
+        if len == 0 {
+            // Nothing to hash: an all-zero identifier would be "found" in a file while the same
+            // module read from memory fails (a zero-length read is refused there).
+            return Err(Error::NoTextSection);
+        }
         let text_data = self.module_memory.read(text_header.sh_offset, len)?;
         Ok(build_id_from_bytes(&text_data))
     }
